@@ -235,12 +235,16 @@ pub fn owned_case<D: Distance>(c: &OwnedCase, st: &mut CaseStats) -> Result<(), 
     std::thread::scope(|scope| {
         let mut txs = Vec::new();
         let mut rxs = Vec::new();
+        // Reader threads hold LMDB read transactions with thread-local reader slots: they must have
+        // terminated completely (TLS destructors included, which only a native join guarantees) before
+        // the environment is closed, otherwise LMDB's slot destructor writes into unmapped memory.
+        let mut handles = Vec::new();
         for _ in 0..n_readers {
             let (ctx, crx) = channel::<Cmd>();
             let (rtx, rrx) = channel::<Resp>();
             let env = &tenv.env;
             let versions = &versions;
-            scope.spawn(move || reader_thread::<D>(env, db, raw, metric, isp, versions, crx, rtx));
+            handles.push(scope.spawn(move || reader_thread::<D>(env, db, raw, metric, isp, versions, crx, rtx)));
             txs.push(ctx);
             rxs.push(rrx);
         }
@@ -372,6 +376,10 @@ pub fn owned_case<D: Distance>(c: &OwnedCase, st: &mut CaseStats) -> Result<(), 
         for t in &txs {
             let _ = t.send(Cmd::Quit);
         }
+        drop(txs);
+        for h in handles {
+            let _ = h.join();
+        }
         *result.lock().unwrap() = r;
     });
     st.nontrivial = st.get("snapshot_held_across_2_commits") > 0 || st.get("abort_after_build") > 0;
@@ -403,6 +411,7 @@ pub fn free_case<D: Distance>(c: &FreeCase, st: &mut CaseStats) -> Result<(), Fa
     let held = AtomicU64::new(0);
     let cfg = RunCfg::default();
     std::thread::scope(|scope| {
+        let mut handles = Vec::new();
         for r in 0..c.readers {
             let env = &tenv.env;
             let versions = &versions;
@@ -412,7 +421,7 @@ pub fn free_case<D: Distance>(c: &FreeCase, st: &mut CaseStats) -> Result<(), Fa
             let failure = &failure;
             let opens = &opens;
             let held = &held;
-            scope.spawn(move || {
+            handles.push(scope.spawn(move || {
                 let w = Writer::<D>::new(db, isp.index, isp.dims);
                 let mut k = r as u64;
                 while !done.load(Ordering::Acquire) && failure.lock().unwrap().is_none() {
@@ -492,7 +501,7 @@ pub fn free_case<D: Distance>(c: &FreeCase, st: &mut CaseStats) -> Result<(), Fa
                         }
                     }
                 }
-            });
+            }));
         }
         // writer
         let mut run = || -> Result<(), Fail> {
@@ -566,6 +575,10 @@ pub fn free_case<D: Distance>(c: &FreeCase, st: &mut CaseStats) -> Result<(), Fa
                 *g = Some(f);
             }
         }
+        // native join: the readers' thread-local LMDB reader slots must be released before the env closes
+        for h in handles {
+            let _ = h.join();
+        }
     });
     st.add("reader_opens", opens.load(Ordering::Relaxed));
     st.add("checks_after_2_later_commits", held.load(Ordering::Relaxed));
@@ -593,7 +606,7 @@ fn c08_gen(free: bool) -> GenCfg {
         abort_pct: if free { 10 } else { 25 },
         build_pct: 90,
         op_weights: [65, 30, 0, 1, 0],
-        edge_ids: false,
+        edge_ids: true,
         cancel_pct: 12,
         ..GenCfg::small()
     }
